@@ -68,7 +68,7 @@ def choose_destination(rng):
     REPLY_FROM = responder if MULTICAST else DEST
 
 
-CATS = ["forged_addr", "forged_port", "forged_scope", "genuine_tc_short", "wrong_question_class", "wrong_id", "wrong_question", "extra_question", "repeated_question", "empty_question_noerror", "wrong_opcode", "qr_clear", "garbage", "garbage_tc", "genuine_tc", "genuine_trailing", "genuine_malformed_tail",
+CATS = ["forged_addr", "forged_port", "forged_scope", "genuine_tc_short", "wrong_question_class", "wrong_id", "wrong_question", "extra_question", "repeated_question", "empty_question_noerror", "empty_question_other_rcode", "wrong_opcode", "qr_clear", "garbage", "garbage_tc", "genuine_tc", "genuine_trailing", "genuine_malformed_tail",
         "servfail_noq", "genuine", "genuine", "block"]
 
 
@@ -163,6 +163,9 @@ def datagram(cat, q, rng):
         return bytes(w[:qend]) + bytes(w[12:qend]) + bytes(w[qend:]), REPLY_FROM
     if cat == "empty_question_noerror":
         return struct.pack("!HHHHHH", q.id, 0x8000, 0, 0, 0, 0), REPLY_FROM
+    if cat == "empty_question_other_rcode":
+        # header only, an rcode other than the four for which a server may legitimately be unable to echo the question
+        return struct.pack("!HHHHHH", q.id, 0x8000 | rng.choice((3, 6, 7, 8, 9, 10)), 0, 0, 0, 0), REPLY_FROM
     if cat == "wrong_opcode":
         w = bytearray(response_wire(q, rng))
         w[2] = (w[2] & 0x87) | (4 << 3)
@@ -506,7 +509,7 @@ def check_udp(ctx, rng, is_async, cats=None, opts=None):
         if (frm != DEST) if not MULTICAST else (frm[1:] != DEST[1:]):
             ctx.violation(f"returned-message-from-unexpected-source:{mode}:{cats[idx]}{':multicast' if MULTICAST else ''}", f"{frm}", case)
             return
-        if cats[idx] in ("garbage", "garbage_tc", "genuine_tc_short", "genuine_malformed_tail", "wrong_id", "wrong_question", "wrong_question_class", "extra_question", "repeated_question", "empty_question_noerror", "wrong_opcode", "qr_clear") or (cats[idx] == "genuine_trailing" and not opts["ignore_trailing"]):
+        if cats[idx] in ("garbage", "garbage_tc", "genuine_tc_short", "genuine_malformed_tail", "wrong_id", "wrong_question", "wrong_question_class", "extra_question", "repeated_question", "empty_question_noerror", "empty_question_other_rcode", "wrong_opcode", "qr_clear") or (cats[idx] == "genuine_trailing" and not opts["ignore_trailing"]):
             ctx.violation(f"malformed-or-mismatched-datagram-returned:{mode}:{cats[idx]}:{'ignore_errors' if opts['ignore_errors'] else 'strict'}", f"cats {cats} opts {opts}; message errors {getattr(r, 'errors', None)}", case)
             return
         if cats[idx] == "genuine_tc" and opts["raise_on_truncation"]:
